@@ -140,19 +140,54 @@ def check_case(sink, seed, idx):  # noqa: C901
                                              and all(_eq(x, y) for x, y in zip(a if first == 'path' else a.path, p)) for a, p in zip(got, paths))
                 sink.check(okp, f'{name}/first-argument', f'{name} passes the path/accessor first', ident, lambda: (got, paths))
             sink.count(f'transpose-maps:{name}')
-        # deviating inner shape: one result is not a suffix of the inner structure -> ValueError
+        # deviating inner shape: one result is not a suffix of the inner structure -> ValueError (any variant, any position; with a given
+        # inner structure also the first result)
         if m >= 2 and ispec.num_nodes > 1:
+            dname, dfn, _, dfirst = variants[(idx // 3) % 3]
+            dgiven = ispec if (idx // 9) % 2 else None
+            pos = rng.randrange(1 if dgiven is not None else 2, m + 1)
             calls = [0]
 
-            def h(x, *rest):
+            def h(*args):
                 calls[0] += 1
-                if calls[0] == m:  # the last result deviates
+                if calls[0] == pos:
                     return U.Leaf('deviant')
-                return f(x)
+                return f(args[1] if dfirst else args[0])
 
-            k7, v7 = outcome(lambda: optree.tree_transpose_map(h, otree, **kw))
-            sink.check(k7 == 'ValueError', 'transpose_map/deviating-result', 'a result that does not match the inner structure raises ValueError', ident, lambda: (k7, repr(v7)[:200]))
+            k7, v7 = outcome(lambda: dfn(h, otree, inner_treespec=dgiven, **kw))
+            sink.check(k7 == 'ValueError', 'transpose_map/deviating-result', 'a result that does not match the inner structure raises ValueError', dict(ident, variant=dname, position=pos, given=dgiven is not None),
+                       lambda: (k7, repr(v7)[:200]))
             sink.count('deviating-results')
+            sink.cell('deviant', dname, 'first' if pos == 1 else 'last' if pos == m else 'middle', dgiven is not None)
+        # the inner structure is the one of the FIRST result: later results that are deeper are cut at it; a first result that is deeper
+        # than a later one makes the later one a mismatch
+        if m >= 2 and o.pred == 'none':
+            deep_at = rng.randrange(n)
+            cells = {}
+
+            def cell(i, j, deep):
+                if (i, j) not in cells:
+                    cells[i, j] = [U.Leaf(('d', i, j, 0)), (U.Leaf(('d', i, j, 1)),)] if deep else U.Leaf(('s', i, j))
+                return cells[i, j]
+
+            for first_deep in (False, True):
+                cells.clear()
+                calls = [0]
+
+                def h2(x, *rest):
+                    i = calls[0]
+                    calls[0] += 1
+                    deep = (i == 0) == first_deep
+                    return ispec.unflatten([cell(i, j, deep and j == deep_at) for j in range(n)])
+
+                k8, v8 = outcome(lambda: optree.tree_transpose_map(h2, otree, **kw))
+                if first_deep:
+                    sink.check(k8 == 'ValueError', 'transpose_map/first-result-defines/later-shallower', 'a later result that lacks a node of the first result raises ValueError', ident, lambda: (k8, repr(v8)[:200]))
+                else:
+                    want = ispec.unflatten([ospec.unflatten([cells[i, j] for i in range(m)]) for j in range(n)]) if k8 == 'ok' else None
+                    d8 = same.diff(want, v8) if k8 == 'ok' else repr(v8)[:200]
+                    sink.check(k8 == 'ok' and d8 is None, 'transpose_map/first-result-defines/later-deeper', 'the inner structure is taken from the first result; deeper later results are cut at it', ident, d8)
+                sink.count('first-result-defines')
     sink.cell('opt', o.none_is_leaf, o.namespace or 'global', o.pred, o.dict_mode)
     sink.cell('mn', min(m, 6), min(n, 6))
     sink.case(harness.fp(od.short(), idesc.short(), o.key()), m * n >= 4 and oref.shape.internal_nodes() >= 1 and iref.shape.internal_nodes() >= 1, dict(ident, m=m, n=n))
@@ -171,5 +206,6 @@ def finalize(sink, tier, seed):
     sink.require('rejections:leaf-count')
     sink.require('rejections:namespace')
     sink.require('deviating-results')
+    sink.require('first-result-defines', 100)
     for v in ('tree_transpose_map', 'tree_transpose_map_with_path', 'tree_transpose_map_with_accessor'):
         sink.require(f'transpose-maps:{v}')
